@@ -615,6 +615,18 @@ def _dead_fn_call():
 
 
 BUILDERS["dead_fn_call"] = lambda: _p("dead_fn_call", _dead_fn_call(), [(2, 4)])
+def _tmean_top(x):
+    # transpose -> mean(keepdims) -> transpose at the top level of the main graph (optimizer pass 2 rewrites it)
+    return jnp.transpose(jnp.mean(jnp.transpose(x, (0, 3, 1, 2)), axis=(2, 3), keepdims=True), (0, 2, 3, 1)) + 1.0
+
+
+def _tmean_with_fn():
+    t = _single("tmean_fn_inst", lambda: TMean(4, 2))
+    return lambda x: t(x) + jnp.transpose(jnp.mean(jnp.transpose(x, (1, 0)), axis=0, keepdims=True), (1, 0))
+
+
+BUILDERS["tmean_top"] = lambda: _p("tmean_top", _tmean_top, [(1, 3, 3, 2)])
+BUILDERS["tmean_with_fn"] = lambda: _p("tmean_with_fn", _tmean_with_fn(), [(3, 4)])
 BUILDERS["dead_cast"] = lambda: _p("dead_cast", _dead_cast, [(3, 4)], dtypes=[np.int16])
 BUILDERS["dead_transpose"] = lambda: _p("dead_transpose", _dead_transpose, [(3, 4)])
 BUILDERS["dead_reshape"] = lambda: _p("dead_reshape", _dead_reshape, [(3, 4)])
